@@ -12,12 +12,12 @@ from vf.seq import outcome
 PROP = "C07"
 LEVEL = "exploration"
 RULE = ("seeded random histories (30-400 operations) over capacities 1-8 and 64, key universe capacity+1..+4: "
-        "store (new and present keys), c[k], get, del, in, len, list, keys, values, items, pop, popitem, clear, "
+        "store (new and present keys, also re-storing the identical object), c[k], get, del, in, len, list, keys, values, items, pop, popitem, clear, "
         "update, setdefault, ==. Model: key -> (value, use count interval). After every operation: result / "
         "exception class, len<=max_size, key set, the victim of an overflow can be a minimum (lo(victim) <= "
         "hi(every other key present before)), iteration order consistent with non-decreasing counts "
         "(lo(x) <= hi(y) for x before y), views finish within the statement budget and equal the content. One "
-        "third of the histories contain no membership test / view / get, so their counts are exact (lo == hi). "
+        "hundred-and-fiftieth of the histories drives a few hot keys to 270-1000 uses each before overflowing; one third of the histories contain no membership test / view / get, so their counts are exact (lo == hi). "
         "distinct_nontrivial = distinct (capacity, iteration order, counts) states with >=2 keys.")
 ASSUMPTIONS = [
     "count 1 at insertion, +1 for every store to a present key and every successful c[k]; `in` on a present key, "
@@ -35,6 +35,19 @@ OPS = ["set", "getitem", "get", "del", "contains", "len", "list", "keys", "value
 
 
 def gen_case(rng, tier, index):
+    if index % 150 == 9:
+        # a few hot keys used hundreds of times each (with different totals), then overflow stores
+        cap = rng.choice([2, 3])
+        ops = []
+        for ki in range(cap):
+            ops.append(["set", ki, 0, 1])
+        totals = [rng.choice([270, 300, 520, 1000]) + 37 * ki for ki in range(cap)]
+        for ki, t in enumerate(totals):
+            ops += [["getitem", ki, 0, 1]] * t
+        for j in range(3):
+            ops.append(["set", cap + j, 0, 1])
+            ops.append(["list", 0, 0, 1])
+        return {"cap": cap, "nkeys": cap + 3, "ops": ops, "exact": True}
     cap = rng.choice([1, 1, 2, 2, 3, 3, 4, 5, 6, 7, 8, 64]) if index % 7 else rng.choice([1, 2, 3])
     nkeys = cap + rng.randint(1, 4)
     nops = rng.randint(30, 120 if tier == "quick" else 400)
@@ -163,6 +176,8 @@ def run_case(case, res):
         desc = f"{op}({k!r})"
         if op == "set":
             v = (v, step)  # unique value per store: a read identifies the store it observed
+            if aux % 4 == 0 and k in m.val:
+                v = m.val[k]   # the very same object is stored again (a refresh): still a store, still one more use
             desc = f"store {k!r}"
             before = dict(m.val)
             got = _guard(desc, n, lambda: c.__setitem__(k, v))
